@@ -427,7 +427,7 @@ def explore_to_yield(fn, g, env0, at_exit=False):
 
 @rule('C24.off', floor=4)
 def off(repo, out):
-    """A disabled Relevance (_active False) is never touched or re-activated by a context manager; active(False) always deactivates."""
+    """A disabled Relevance (_active False) is never touched or re-activated by a context manager; active(False) always deactivates; active(True) never activates an uninitialised (_active None) object."""
     for fn in ctx_funcs(repo):
         g = cfgm.build(fn)
         short = fn.qualname.split('.')[-1]
@@ -454,6 +454,15 @@ def off(repo, out):
                                 f'{sorted(set(writes))} and runs the block with _active={inside!r}',
                                 key=f'{short}-disabled-touched')
                         problems += 1
+                    if short == 'active' and inside is not TOP and inside and not s and \
+                            not ({'set_seeds', 'sarray'} & set(writes)):
+                        what = ('an uninitialised relevance object (_active None: no seeds were set for the '
+                                'current operation)' if s is None else 'a disabled relevance object')
+                        out.bad(fn, y.ast, f'active({a!r}) switches filtering ON for {what} without establishing '
+                                'the relevance arrays: filter()/is_relevant() stop being fail-open and prune '
+                                'with whatever arrays an earlier derivative computation left behind (a plain '
+                                'run_model then skips systems)', key='active-activates-uninitialised')
+                        problems += 1
                     if short == 'active' and a is False:
                         if inside is TOP:
                             out.unsure(fn, y.ast, 'value of _active inside active(False) not resolved')
@@ -467,7 +476,8 @@ def off(repo, out):
         out.count('abstract_states', nstates)
         if not problems:
             out.ok(fn, fn.node, f'{nstates} abstract entry states: disabled stays untouched'
-                   + ('; active(False) leaves _active falsy' if short == 'active' else ''))
+                   + ('; active(False) leaves _active falsy; active(True) never turns an inactive (None) '
+                      'object on' if short == 'active' else ''))
 
 
 # =========================================================================== filter / fail-open
@@ -1078,6 +1088,129 @@ def who(repo, out):
     out.ok(fn, fn.node, 'OPENMDAO_NO_RELEVANCE => _active is False on every path out of __init__')
 
 
+# =========================================================================== once (model-level sets)
+SETS = ('_pre_components', '_post_components', '_iterated_components')
+SET_RESETTERS = {(GROUP, 'Group.__init__'), (GROUP, 'Group._setup')}
+SET_COMPUTER = (REL, 'Relevance._setup_nonlinear_relevance')
+
+
+class _Computed:
+    """A value that is not None and whose truthiness is fixed (a computed set may be empty)."""
+
+    def __init__(self, truth):
+        self.truth = truth
+
+    def __bool__(self):
+        return self.truth
+
+    def __repr__(self):
+        return f'<computed set, {"non-empty" if self.truth else "empty"}>'
+
+
+def _set_writes(stmt):
+    if not isinstance(stmt, (ast.Assign, ast.AugAssign, ast.AnnAssign)):
+        return []
+    return [t for t in astx.assigned_targets(stmt) if isinstance(t, ast.Attribute) and t.attr in SETS]
+
+
+@rule('C24.once', floor=6)
+def once(repo, out):
+    """The model-level pre/iter/post component sets are reset only by Group.__init__/_setup and computed at most once per setup: Relevance._setup_nonlinear_relevance cannot reach a write when they are already computed."""
+    reset_val_ok = False
+    for rel in repo.shipped():
+        src = repo.source(rel)
+        if not any('.' + a in src for a in SETS):
+            continue
+        for f in repo.module(rel).funcs.values():
+            key = (rel, f.qualname)
+            for st in astx.walk_stmts(f.node.body):
+                ws = _set_writes(st)
+                if not ws:
+                    continue
+                if key in SET_RESETTERS:
+                    v = st.value if isinstance(st, ast.Assign) else None
+                    if isinstance(v, ast.Constant) and v.value is None and all(astx.path(t.value) == 'self' for t in ws):
+                        out.ok(f, st, 'reset to None at (re)setup')
+                        if f.qualname == 'Group._setup' and any(t.attr == '_pre_components' for t in ws):
+                            reset_val_ok = True
+                    else:
+                        out.unsure(f, st, 'setup writes something other than the None reset value')
+                elif key != SET_COMPUTER:
+                    out.bad(f, st, f'`{astx.src(st)}` overwrites the model-level pre/iter/post sets outside '
+                            'setup and outside the guarded one-time computation: the driver\'s own relevance '
+                            'object and the run_driver phases then disagree about which components run',
+                            key='sets-foreign-writer')
+    if not reset_val_ok:
+        out.unsure(GROUP, None, 'Group._setup no longer resets _pre_components to None')
+        return
+    fn = repo.func(*SET_COMPUTER)
+    g = cfgm.build(fn)
+    rd = cfgm.ReachingDefs(g)
+    params = [a.arg for a in fn.node.args.args]
+    if len(params) < 2:
+        raise AnalysisError(f'{fn.ident}: signature changed')
+    m = params[1]
+    targets = [n for n in g.nodes if n.kind == 'stmt' and not n.tag and _set_writes(n.ast)]
+    if not targets:
+        raise AnalysisError(f'{fn.ident}: no longer writes the pre/post/iterated sets')
+    foreign = [n for n in targets if any(astx.path(t.value) != m for t in _set_writes(n.ast))]
+    if foreign:
+        out.unsure(fn, foreign[0].ast, f'sets are written on something other than `{m}`')
+        return
+
+    def resolve(test, at, depth=0):
+        """Substitute a plain local flag by its unique defining expression."""
+        if isinstance(test, ast.Name) and depth < 3:
+            v = rd.value(at, test.id)
+            if v is not None:
+                return resolve(v, next(iter(rd.defs(at, test.id))), depth + 1)
+        return test
+
+    def reachable_write(env):
+        seen = set()
+        par = {}
+        stack = [g.entry]
+        while stack:
+            n = stack.pop()
+            if n in seen:
+                continue
+            seen.add(n)
+            if n in targets:
+                p = []
+                while n is not None:
+                    p.append(n)
+                    n = par.get(n)
+                return p[::-1]
+            if n.kind == 'test':
+                vals = eval_all(resolve(n.ast.test, n), env)
+                nxt = [(x, lab) for x, lab in g.succ[n]
+                       if (lab == 'true' and True in vals) or (lab == 'false' and False in vals)]
+            else:
+                nxt = [(x, lab) for x, lab in g.succ[n] if lab != 'exc']
+            for x, _ in nxt:
+                if x not in seen:
+                    par.setdefault(x, n)
+                    stack.append(x)
+        return None
+    for truth in (True, False):
+        env = {f'{m}.{a}': _Computed(truth) for a in SETS}
+        w = reachable_write(env)
+        if w is not None:
+            tests = [n for n in w if n.kind == 'test']
+            out.bad(fn, w[-1].ast, 'the model-level sets are recomputed although they were already computed '
+                    f'since the last setup ({env[m + "._pre_components"]!r}): a later Relevance object (e.g. '
+                    'compute_totals with explicit of/wrt) overwrites the pre/post sets that belong to the '
+                    'driver\'s design variables and responses; path: ' + g.fmt_path(w),
+                    key='sets-recomputed')
+            return
+    fresh = reachable_write({f'{m}.{a}': None for a in SETS})
+    if fresh is None:
+        out.unsure(fn, fn.node, 'the sets can never be computed, not even right after setup')
+        return
+    out.ok(fn, targets[0].ast, f'{len(targets)} write(s), none reachable once the sets are not None; '
+           'reachable after the reset')
+
+
 # =========================================================================== sweeps
 def _is_relevance(expr, rd, at):
     """True if expr denotes a system's Relevance object (x._relevance or a local alias of it)."""
@@ -1573,6 +1706,18 @@ selftest(
            '        if False:\n            yield\n        else:\n', 'C24.off'),
     Mutant('off-nl-and', REL, "        if not active or self._active is False or name not in self._nonlinear_sets:",
            "        if not active or (self._active is False and name not in self._nonlinear_sets):", 'C24.off'),
+    Mutant('off-active-none-switched-on', REL, '        if self._active or (not active and self._active is None):',
+           '        if self._active is not False:', 'C24.off'),
+    Mutant('off-active-none-or-true', REL, '        if self._active or (not active and self._active is None):',
+           '        if self._active or self._active is None:', 'C24.off'),
+    # ---- once
+    Mutant('once-guard-removed', REL, "        # don't redo this if it's already done\n        if model._pre_components is not None:\n            return\n\n", '', 'C24.once'),
+    Mutant('once-guard-truthy', REL, "        if model._pre_components is not None:\n            return\n", "        if model._pre_components:\n            return\n", 'C24.once'),
+    Mutant('once-guard-inverted', REL, "        if model._pre_components is not None:\n            return\n", "        if model._pre_components is None:\n            return\n", 'C24.once'),
+    Mutant('once-guard-after-first-write', REL, "        # don't redo this if it's already done\n        if model._pre_components is not None:\n            return\n\n        if not designvars or not responses or not model._problem_meta['group_by_pre_opt_post']:\n            return\n",
+           "        if not designvars or not responses or not model._problem_meta['group_by_pre_opt_post']:\n            return\n\n        model._post_components = set()\n        if model._pre_components is not None:\n            return\n", 'C24.once'),
+    Mutant('once-foreign-writer', 'openmdao/core/total_jac.py', "        self.relevance = get_relevance(model, of_metadata, wrt_metadata)\n",
+           "        self.relevance = get_relevance(model, of_metadata, wrt_metadata)\n        model._pre_components = set()\n", 'C24.once'),
     # ---- filter / failopen
     Mutant('filter-by-name', REL, 'if relevant == self.is_relevant_system(system.pathname):', 'if relevant == self.is_relevant_system(system.name):', 'C24.filter'),
     Mutant('filter-inverted', REL, 'if relevant == self.is_relevant_system(system.pathname):', 'if relevant != self.is_relevant_system(system.pathname):', 'C24.filter'),
@@ -1767,6 +1912,11 @@ selftest(
                     raise err
 """),
     Twin('twin-who-switch-if', REL, '        self._active = False if _no_relevance else None', '        self._active = None\n        if _no_relevance:\n            self._active = False'),
+    Twin('twin-once-not-is-none', REL, "        if model._pre_components is not None:\n            return\n", "        if not (model._pre_components is None):\n            return\n"),
+    Twin('twin-once-flag', REL, "        if model._pre_components is not None:\n            return\n", "        done = model._pre_components is not None\n        if done:\n            return\n"),
+    Twin('twin-once-any-set', REL, "        if model._pre_components is not None:\n            return\n", "        if model._pre_components is not None or model._post_components is not None:\n            return\n"),
+    Twin('twin-off-active-explicit', REL, '        if self._active or (not active and self._active is None):',
+         '        if self._active is True or (self._active is None and not active):'),
     Twin('twin-gate-local-flag', GROUP, "            with relevance.active(self._linear_solver.use_relevance()):\n                subs = list(",
          "            prune = self._linear_solver.use_relevance()\n            with relevance.active(prune):\n                subs = list("),
 )
